@@ -205,7 +205,9 @@ class Env:
         }
         self.tasks = {}           # child name -> Task
         self.ctxs = {}            # activity name -> Ctx
-        self.scopes = {}          # scope step id -> Scope object
+        self.scopes = {}          # scope step id -> Scope object (only for blocks that other
+        #                           steps refer to: the harness keeps nothing else alive)
+        self.referenced_scopes = referenced_scope_ids(program)
         self.ended_scopes = set()
         self.scope_keys = {}      # id(Scope object) -> key of its block instance
         self._junk = []
@@ -470,6 +472,23 @@ YIELDING_OPS = {'wait', 'setflag', 'settracked', 'put', 'get', 'close', 'transfe
 NOT_PERFORMED = ('closed', 'skipped', 'notask')
 
 
+def referenced_scope_ids(program):
+    """ids of the blocks that some step addresses by id (guard / watch into another block)"""
+    found = set()
+
+    def walk(node):
+        if isinstance(node, dict):
+            if isinstance(node.get('scope'), str):
+                found.add(node['scope'])
+            for value in node.values():
+                walk(value)
+        elif isinstance(node, list):
+            for value in node:
+                walk(value)
+    walk(program.get('roots', []))
+    return found
+
+
 async def run_steps(env, ctx, steps):
     for step in steps:
         await exec_step(env, ctx, step)
@@ -594,6 +613,11 @@ def spawn(env, ctx, scope, key, child):
     if info is not None:
         info['children'].append((name, bool(child.get('volatile'))))
     env.log(ctx.name, 'spawn', name)
+    if child.get('cancel_at_once'):
+        # handed to the scope and cancelled in the same breath: it never gets to run
+        env.note_cancel(task, ('at-once',))
+        task.cancel('at-once')
+        env.sess.stats['cancelled_at_once'] += 1
     return task
 
 
@@ -753,7 +777,8 @@ async def op_scope(env, ctx, step):
         'sid': sid, 'owner': ctx.name, 'children': [], 'ends': [], 'until': notif is not None,
         'entered': env.sess.now(), 'left': None, 'body': None,
     }
-    env.scopes[sid] = (scope, key)
+    if sid in env.referenced_scopes:
+        env.scopes[sid] = (scope, key)
     env.scope_keys[id(scope)] = key
     ctx.scopes.append(scope)
     body_exc = outer_exc = None
